@@ -49,6 +49,8 @@ class Env:
         self.group = None     # list of (member_term, Env) when evaluating inside a grouped select
         self.aliases = {}     # output aliases visible to ORDER BY / GROUP BY / HAVING: name -> V or callable
         self.lambda_vars = {}
+        self.win = None       # list of (present, row Env): the rows window functions of this select range over
+        self.win_self = None  # index of this row in self.win
 
     def child(self):
         e = Env(self.sem, outer=self)
@@ -84,6 +86,9 @@ class Env:
                         raise Unsupported("column outside aggregate in aggregate-only select")
                     return e.vals[hits[0]]
                 if len(hits) > 1:
+                    if self.sem.dup_first and len({e.cols[h][0] for h in hits}) == 1 and e.vals is not None:
+                        # SQLite resolves a duplicated column name of ONE derived table to its first occurrence
+                        return e.vals[hits[0]]
                     raise Unsupported(f"ambiguous column {qual}.{name}")
             if not prefer_alias and not qual and name in e.aliases:
                 return e.aliases[name]
@@ -101,9 +106,16 @@ def _norm_ident(x) -> str:
     return _norm_ident(x.this) if hasattr(x, "this") else str(x).lower()
 
 
+class _OrderOnly:
+    """Minimal stand-in for a query node that only carries an ORDER BY (used to evaluate sort keys)."""
+
+    def __init__(self, order):
+        self.args = {"order": order}
+
+
 class Sem:
     def __init__(self, A, tables: dict, schema: dict, nulls_last_default: bool = True, bool_is_int: bool = False,
-                 null_ordering: str | None = None):
+                 null_ordering: str | None = None, dup_first: bool = False):
         """tables: name -> Rel-like list of (present, {col: V}); schema: name -> [(col, kind)]"""
         self.A = A
         self.tables = tables
@@ -112,6 +124,7 @@ class Sem:
         # None -> use nulls_last_default; "small": NULLs sort as the smallest value (first ASC, last DESC); "large": the opposite
         self.null_ordering = null_ordering
         self.bool_is_int = bool_is_int
+        self.dup_first = dup_first
         self.assumptions = []   # terms assumed true (tie-free ORDER BY keys, scalar sub-queries return <= 1 row)
         self.features = set()
 
@@ -367,6 +380,8 @@ class Sem:
         if t is exp.Abs:
             x = self.as_int(self.ev(e.this, env))
             return V("int", x.n, A.If(x.v < A.Int(0), -x.v, x.v))
+        if t is exp.Window:
+            return self.window(e, env)
         if isinstance(e, exp.AggFunc):
             return self.aggregate(e, env)
         if t is exp.ArrayAny or t is exp.ArrayAll:
@@ -455,6 +470,71 @@ class Sem:
         anyt = A.Or(*[A.And(p, self.is_true(c)) for p, c in conds])
         empty = A.Not(A.Or(*[p for p, _ in conds]))
         return V("bool", arr.n, A.Or(empty, anyt))
+
+    # ------------------------------------------------------------------ window functions
+    def window(self, e, env: Env) -> V:
+        """ROW_NUMBER / RANK-free subset: ROW_NUMBER(), COUNT, SUM, MIN, MAX OVER (PARTITION BY .. [ORDER BY ..]) with the default
+        frame (whole partition without ORDER BY; rows up to the current one with ORDER BY, ties assumed away)."""
+        A = self.A
+        we = env
+        while we is not None and we.win is None:
+            we = we.outer
+        if we is None:
+            raise Unsupported("window function outside a select")
+        if e.args.get("spec") is not None or e.args.get("alias") is not None or e.args.get("over") not in (None, "OVER"):
+            raise Unsupported("window frame / named window")
+        self.features.add("window")
+        rows = we.win
+        me = we.win_self
+        parts = e.args.get("partition_by") or []
+        order = e.args.get("order")
+        pkeys = [[self.ev(k, renv) for k in parts] for _p, renv in rows]
+        member = [A.And(p, A.And(*[self.same(a, b) for a, b in zip(pkeys[j], pkeys[me])])) for j, (p, _r) in enumerate(rows)]
+        upto = member
+        if order is not None:
+            okeys = []
+            for _p, renv in rows:
+                ks = []
+                for o in order.expressions:
+                    v = self.ev(o.this, renv)
+                    if v.k == "bool":
+                        v = V("int", v.n, A.If(v.v, A.Int(1), A.Int(0)))
+                    v = self.as_int(v)
+                    desc = bool(o.args.get("desc"))
+                    nf = o.args.get("nulls_first")
+                    if nf is None:
+                        nf = (not desc) if self.null_ordering == "small" else (desc if self.null_ordering == "large" else not self.nulls_last_default)
+                    ks.append((v, desc, bool(nf)))
+                okeys.append(ks)
+
+            def before(a, b):
+                res = A.F
+                for (va, desc, nf), (vb, _d, _n) in reversed(list(zip(okeys[a], okeys[b]))):
+                    both = A.And(A.Not(va.n), A.Not(vb.n))
+                    lt = A.And(both, (va.v > vb.v) if desc else (va.v < vb.v))
+                    null_lt = A.And(va.n, A.Not(vb.n)) if nf else A.And(A.Not(va.n), vb.n)
+                    eq = A.Or(A.And(va.n, vb.n), A.And(both, A.Eq(va.v, vb.v)))
+                    res = A.Or(lt, null_lt, A.And(eq, res))
+                return res
+
+            # ties inside a partition make ROW_NUMBER / running aggregates nondeterministic: assumed away
+            for j in range(len(rows)):
+                if j != me:
+                    eq = A.And(*[A.Or(A.And(x[0].n, y[0].n), A.And(A.Not(x[0].n), A.Not(y[0].n), A.Eq(x[0].v, y[0].v)))
+                                 for x, y in zip(okeys[j], okeys[me])])
+                    self.assumptions.append(A.Not(A.And(member[j], member[me], eq)))
+            upto = [member[j] if j == me else A.And(member[j], before(j, me)) for j in range(len(rows))]
+        fn = e.this
+        if isinstance(fn, exp.RowNumber):
+            if order is None:
+                raise Unsupported("ROW_NUMBER without ORDER BY")
+            return self.int_(A.Sum([A.If(u, A.Int(1), A.Int(0)) for u in upto]))
+        if isinstance(fn, (exp.Count, exp.Sum, exp.Min, exp.Max)):
+            genv = Env(self, outer=env)
+            genv.group = [(u, renv) for u, (_p, renv) in zip(upto, rows)]
+            genv.win = None
+            return self.aggregate(fn, genv)
+        raise Unsupported("window function " + type(fn).__name__)
 
     # ------------------------------------------------------------------ aggregates
     def aggregate(self, e, env: Env) -> V:
@@ -785,11 +865,11 @@ class Sem:
 
     def select(self, sel: exp.Select, env: Env) -> Rel:
         A = self.A
-        for k in ("qualify", "windows", "pivots", "laterals", "cluster", "distribute", "sort", "into", "locks", "sample", "connect", "match"):
+        for k in ("windows", "pivots", "laterals", "cluster", "distribute", "sort", "into", "locks", "sample", "connect", "match"):
             if sel.args.get(k):
                 raise Unsupported(k)
-        if sel.find(exp.Window):
-            raise Unsupported("window function")
+        has_window = any(True for w in sel.find_all(exp.Window) if w.find_ancestor(exp.Select) is sel)
+        qualify = sel.args.get("qualify")
         env = self.with_ctes(sel, env)
         rel = self.from_clause(sel, env)
         where = sel.args.get("where")
@@ -803,8 +883,9 @@ class Sem:
         has_agg = any(self._has_agg(p) for _n, p in projs if not isinstance(p, tuple)) or (having is not None and self._has_agg(having)) \
             or any(self._has_agg(o) for o in ((sel.args.get("order").expressions) if sel.args.get("order") else []))
         distinct = sel.args.get("distinct")
-        if distinct is not None and distinct.args.get("on") is not None:
-            raise Unsupported("DISTINCT ON")
+        distinct_on = distinct.args.get("on") if distinct is not None else None
+        if (has_window or qualify is not None) and (group is not None or has_agg):
+            raise Unsupported("window function over a grouped select")
 
         def proj_val(p, renv):
             if isinstance(p, tuple):
@@ -862,18 +943,60 @@ class Sem:
         else:
             if having is not None:
                 raise Unsupported("HAVING without aggregation")
-            for p, re in zip(pres, renvs):
+            win = list(zip(pres, renvs)) if (has_window or qualify is not None) else None
+            for i, (p, re) in enumerate(zip(pres, renvs)):
+                if win is not None:
+                    re.win, re.win_self = win, i
                 vals = [proj_val(pp, re) for _n, pp in projs]
                 e2 = Env(self, outer=re)
                 self._bind_aliases(e2, names, vals)
+                if qualify is not None:
+                    p = A.And(p, self.is_true(self.ev(qualify.this, e2)))
                 out_rows.append((p, vals))
                 out_envs.append(e2)
         out = Rel([(None, n) for n in names], out_rows)
-        if distinct is not None:
+        if distinct_on is not None:
+            out = self.distinct_on(sel, distinct_on, out, out_envs)
+        elif distinct is not None:
             # DISTINCT happens before ORDER BY/LIMIT; ORDER BY may then only use output columns
             d = self.distinct(out)
             out = d
         return self.order_limit(sel, out, out_envs, env)
+
+    def distinct_on(self, sel, on, out: Rel, out_envs) -> Rel:
+        """SELECT DISTINCT ON (keys) .. ORDER BY ..: the first row of each key group in ORDER BY order (ties assumed away)."""
+        A = self.A
+        order = sel.args.get("order")
+        if order is None:
+            raise Unsupported("DISTINCT ON without ORDER BY")
+        self.features.add("distinct-on")
+        keys_on = list(on.expressions) if isinstance(on, exp.Tuple) else [on]
+        kvals = [[self.ev(k, oe) for k in keys_on] for oe in out_envs]
+        tmp = Rel(out.cols, out.rows)
+        probe = self.order_limit(_OrderOnly(order), tmp, out_envs, None)
+        okeys = probe.order
+        n = len(out.rows)
+
+        def before(a, b):
+            res = A.F
+            for (va, desc, nf), (vb, _d, _n) in reversed(list(zip(okeys[a], okeys[b]))):
+                both = A.And(A.Not(va.n), A.Not(vb.n))
+                lt = A.And(both, (va.v > vb.v) if desc else (va.v < vb.v))
+                null_lt = A.And(va.n, A.Not(vb.n)) if nf else A.And(A.Not(va.n), vb.n)
+                eq = A.Or(A.And(va.n, vb.n), A.And(both, A.Eq(va.v, vb.v)))
+                res = A.Or(lt, null_lt, A.And(eq, res))
+            return res
+
+        rows = []
+        for i, (p, vals) in enumerate(out.rows):
+            same_group = [A.And(out.rows[j][0], A.And(*[self.same(a, b) for a, b in zip(kvals[j], kvals[i])])) for j in range(n)]
+            for j in range(n):
+                if j != i:
+                    eq = A.And(*[A.Or(A.And(x[0].n, y[0].n), A.And(A.Not(x[0].n), A.Not(y[0].n), A.Eq(x[0].v, y[0].v))) for x, y in zip(okeys[j], okeys[i])])
+                    self.assumptions.append(A.Not(A.And(p, same_group[j], eq)))
+            earlier = A.Or(*[A.And(same_group[j], before(j, i)) for j in range(n) if j != i])
+            rows.append((A.And(p, A.Not(earlier)), vals))
+        return Rel(out.cols, rows, out.hidden)
 
     def _bind_aliases(self, env: Env, names, vals):
         env.aliases = {}
@@ -900,7 +1023,7 @@ class Sem:
     def _has_agg(self, e) -> bool:
         if isinstance(e, tuple):
             return False
-        for n in e.walk(prune=lambda x: isinstance(x, (exp.Subquery, exp.Select)) and x is not e):
+        for n in e.walk(prune=lambda x: isinstance(x, (exp.Subquery, exp.Select, exp.Window)) and x is not e):
             if isinstance(n, exp.AggFunc):
                 return True
         return False
